@@ -12,7 +12,7 @@ use tokio::sync::broadcast;
 use tokio::sync::mpsc::{self, UnboundedReceiver, UnboundedSender};
 
 use std::collections::HashSet;
-use std::sync::{Arc, RwLock};
+use std::sync::{Arc, Mutex, RwLock};
 
 use scru128::Scru128Id;
 
@@ -176,6 +176,7 @@ pub struct Store {
     contexts: Arc<RwLock<HashSet<Scru128Id>>>,
     broadcast_tx: broadcast::Sender<Frame>,
     gc_tx: UnboundedSender<GCTask>,
+    append_lock: Arc<Mutex<()>>,
 }
 
 impl Store {
@@ -214,6 +215,7 @@ impl Store {
             contexts: Arc::new(RwLock::new(contexts)),
             broadcast_tx,
             gc_tx,
+            append_lock: Arc::new(Mutex::new(())),
         };
 
         // Load context registrations
@@ -496,6 +498,10 @@ impl Store {
     }
 
     pub fn append(&self, mut frame: Frame) -> Result<Frame, crate::error::Error> {
+        // Id assignment, commit and broadcast must not interleave between concurrent writers:
+        // frames have to become visible, and be broadcast, in id order.
+        let _guard = self.append_lock.lock().unwrap();
+
         frame.id = scru128::new();
 
         // Special handling for xs.context registration
